@@ -194,6 +194,10 @@ def run(ctx):
                         a = h["a"]
                         if a == "NewConfig":
                             cfg = pq.Config(seed_sequence=seed_user, cutoff=5)
+                        elif a == "NewConfigUnseeded":
+                            cfg = pq.Config(cutoff=5)
+                        elif a == "SetSeed":
+                            cfg.seed_sequence = seed_user
                         elif a == "NewSim":
                             sim, ins = mk(cfg)
                         elif a == "GlobalDraw":
